@@ -58,6 +58,10 @@ pub struct Scenario {
     pub lat_min_ns: u64,
     pub lat_max_ns: u64,
     pub page_cache: bool,
+    /// FsConfig::sync_probability(1.0): every write is followed by a spontaneous flush of its file, through
+    /// the ring exactly as through the synchronous API
+    #[serde(default)]
+    pub sync_always: bool,
     pub ring_entries: Vec<u32>,
     /// initial length of each file
     pub files: Vec<u32>,
@@ -290,6 +294,7 @@ impl Property for C18 {
             lat_min_ns,
             lat_max_ns,
             page_cache: rng.chance(1, 3),
+            sync_always: rng.chance(1, 5),
             ring_entries: (0..nr).map(|_| rng.range(1, 8) as u32).collect(),
             files: (0..nf).map(|_| rng.range(0, 40) as u32).collect(),
             ops,
@@ -395,6 +400,9 @@ fn run_inner(sc: &Scenario, log: &mut Log, rep: &mut Report) -> Option<Violation
     }
     if sc.page_cache {
         cfg.page_cache();
+    }
+    if sc.sync_always {
+        cfg.sync_probability(1.0);
     }
     if sc.capacity > 0 {
         cfg.capacity(sc.capacity);
@@ -701,6 +709,9 @@ fn run_inner(sc: &Scenario, log: &mut Log, rep: &mut Report) -> Option<Violation
                                             rep.probes.inc("in_place_overwrite_on_limited_disk");
                                         }
                                         model.write_at(file as u8, *off, &pattern(*tag, *len));
+                                        if sc.sync_always {
+                                            model.sync_file(file as u8);
+                                        }
                                         *len as i32
                                     }
                                 }
@@ -940,6 +951,9 @@ fn run_in_sim(sc: &Scenario, log: &mut Log, rep: &mut Report) -> Option<Violatio
         if sc.page_cache {
             f.page_cache();
         }
+        if sc.sync_always {
+            f.sync_probability(1.0);
+        }
     }
     let mut sim = b.build();
     // (ring, buffers) of a first incarnation that left early; the buffers must outlive the operations
@@ -1174,6 +1188,9 @@ fn run_in_sim(sc: &Scenario, log: &mut Log, rep: &mut Report) -> Option<Violatio
                     },
                     SqeKind::Write { off, len, tag, .. } => {
                         model.write_at(0, *off, &pattern(*tag, *len));
+                        if sc.sync_always {
+                            model.sync_file(0);
+                        }
                         *len as i32
                     }
                     SqeKind::Fsync { .. } => {
